@@ -1,6 +1,7 @@
 """C04 — simulator lifecycle: commands, states and notifications follow the
 protocol, also when a command overlaps the run thread's own transitions."""
 import itertools
+import math
 
 from vf import common, program, simrun, devscommon, lifecycle, shrink as shr
 from vf.models.refdevs import OK
@@ -239,7 +240,9 @@ def gen_overlap(rng, seed, tier):
             # "up to but excluding" the end would drop the events at the end
             # (documented relaxation): keep exclusive bounds before the end
             t = end - 1
-        return int(t) if prog["clock"] == "int" else t
+        # (floor, not int(): truncation towards zero would move a negative bound up
+        # to the end of a replication that lies in negative time)
+        return int(math.floor(t)) if prog["clock"] == "int" else t
     directed = None
     stalled_start = False
     end_then = False
